@@ -81,6 +81,15 @@ impl<'a> WriteToHeader for Custom<'a> {
                 w.write_all(a)?;
                 w.write(b)
             }
+            // the payload held in a fixed-size array, written with method-call syntax on the array
+            // (it unsizes to the slice impl, 65535-byte limit included)
+            5 => match self.bytes.len() {
+                3 => <&[u8; 3]>::try_from(self.bytes).unwrap().write_to(w),
+                300 => <&[u8; 300]>::try_from(self.bytes).unwrap().write_to(w),
+                65535 => <&[u8; 65535]>::try_from(self.bytes).unwrap().write_to(w),
+                65536 => <&[u8; 65536]>::try_from(self.bytes).unwrap().write_to(w),
+                _ => self.bytes.write_to(w),
+            },
             _ => w.write_all(self.bytes).map(|_| self.bytes.len()),
         }
     }
@@ -198,7 +207,7 @@ fn apply(b: Builder, op: &Op, variant: u64) -> io::Result<Builder> {
             let store: Vec<Vec<u8>> = vs.iter().map(blob_bytes).collect();
             let items: Vec<Item<'_>> = vs.iter().zip(store.iter()).map(|(v, s)| item(v, s.as_slice())).collect();
             // the same batch through iterators with different size hints
-            match variant % 4 {
+            match variant % 6 {
                 0 => b.write_payloads(items.iter()),
                 1 => b.write_payloads(items.iter().filter(|_| true)),
                 2 => {
@@ -207,6 +216,28 @@ fn apply(b: Builder, op: &Op, variant: u64) -> io::Result<Builder> {
                         i += 1;
                         items.get(i - 1)
                     }))
+                }
+                4 => {
+                    // a re-entrant batch: while it produces its items the iterator builds another
+                    // header with a batch of its own (a child header carried as a value, say)
+                    b.write_payloads(items.iter().inspect(|_| {
+                        let _ = Builder::new(0x21, 0x00).write_payloads([0xA5u8, 0x5A].iter()).and_then(|x| x.write_payloads([7u16].iter())).and_then(|x| x.build());
+                    }))
+                }
+                5 => {
+                    // an earlier batch on this thread was aborted by a panic in its iterator after
+                    // one item (the panic is caught, as a task runtime would)
+                    let _ = crate::adapt::guard(|| {
+                        let mut n = 0;
+                        let _ = Builder::new(0x21, 0x00).write_payloads(std::iter::from_fn(|| {
+                            n += 1;
+                            if n > 1 {
+                                panic!("iterator failed");
+                            }
+                            Some(0xEEu8)
+                        }));
+                    });
+                    b.write_payloads(items.iter())
                 }
                 _ => b.write_payloads(items.iter().collect::<Vec<_>>()),
             }
